@@ -57,6 +57,8 @@ pub struct RigConfig {
     pub victim_seq: u64,
     /// Does the victim's record carry its socket address?
     pub victim_enr_has_addr: bool,
+    /// Non-default protocol id / version the node is configured with.
+    pub protocol_identity: Option<discv5::ProtocolIdentity>,
 }
 
 impl Default for RigConfig {
@@ -71,6 +73,7 @@ impl Default for RigConfig {
             rate_limiter: None,
             victim_seq: 1,
             victim_enr_has_addr: true,
+            protocol_identity: None,
         }
     }
 }
@@ -142,6 +145,9 @@ impl WireRig {
             .session_timeout(cfg.session_timeout)
             .session_cache_capacity(cfg.session_cache_capacity)
             .executor(Box::new(TokioExecutor));
+        if let Some(pi) = cfg.protocol_identity {
+            builder.protocol_identity(pi);
+        }
         if cfg.packet_filter {
             builder.enable_packet_filter();
             builder.filter_rate_limiter(cfg.rate_limiter.clone());
